@@ -357,12 +357,15 @@ def expand_globals(module_tree, expr):
     return X().visit(copy.deepcopy(expr))
 
 
-def copies_all_items(stmt, src: str, dst: str) -> bool:
+def copies_all_items(stmt, src: str, dst: str, func_node=None) -> bool:
     """the statement copies every item of the dict `src` into the dict `dst` in place: a loop over (a list of) src.items() storing
-    dst[k] = v, or dst.update(src)"""
-    if isinstance(stmt, ast.Expr) and isinstance(stmt.value, ast.Call) and A.call_name(stmt.value) == f"{dst}.update" and len(stmt.value.args) == 1 \
-            and A.norm(stmt.value.args[0]) in (src, f"dict({src})", f"{src}.items()"):
-        return True
+    dst[k] = v, or dst.update(src) - the argument possibly a local bound once to a snapshot of src (pass the function for that)"""
+    if isinstance(stmt, ast.Expr) and isinstance(stmt.value, ast.Call) and A.call_name(stmt.value) == f"{dst}.update" and len(stmt.value.args) == 1:
+        arg = stmt.value.args[0]
+        if func_node is not None:
+            arg = expand(func_node, arg)
+        if A.norm(arg) in (src, f"dict({src})", f"{src}.items()", f"list({src}.items())", f"tuple({src}.items())", f"{src}.copy()"):
+            return True
     if isinstance(stmt, ast.For) and A.norm(stmt.iter) in (f"{src}.items()", f"list({src}.items())", f"tuple({src}.items())") and isinstance(stmt.target, ast.Tuple) \
             and len(stmt.target.elts) == 2:
         k, v = (A.norm(e) for e in stmt.target.elts)
